@@ -220,3 +220,26 @@ Proof.
   clear -Hx. induction ss as [|s0 ss0 IHl]; cbn [flat_map] in *; [exact Hx|].
   rewrite flat_map_app, in_app_iff in Hx. rewrite in_app_iff. destruct Hx as [Hx|Hx]; [left; eapply filter_loc_sub; eauto | right; auto].
 Qed.
+
+(* ---- root routing (plan.go:297-317, 353-375): a root field with an owner goes to exactly one service ---- *)
+Lemma filter_loc_owned c al n args ds t oss loc parent o :
+  url_for c parent "" n = Some o -> String.eqb n "__typename" = false ->
+  filter_loc c (SField al n args ds t oss) loc parent = if String.eqb o loc then [SField al n args ds t oss] else [].
+Proof.
+  intros Hu Hn. destruct oss; cbn [filter_loc]; rewrite Hu, Hn, andb_false_r; reflexivity.
+Qed.
+
+Theorem root_field_once c al n args ds t oss parent o (locs : list string) :
+  url_for c parent "" n = Some o -> String.eqb n "__typename" = false -> NoDup locs -> In o locs ->
+  flat_map (fun loc => filter_loc c (SField al n args ds t oss) loc parent) locs = [SField al n args ds t oss].
+Proof.
+  intros Hu Hn HN Hin. induction locs as [|l t0 IH]; [destruct Hin|].
+  cbn [flat_map]. rewrite (filter_loc_owned _ _ _ _ _ _ _ _ _ _ Hu Hn). inversion HN as [|? ? Hnin HN']; subst.
+  destruct (String.eqb o l) eqn:E.
+  - apply String.eqb_eq in E; subst l. cbn [app]. f_equal.
+    clear -Hu Hn Hnin. induction t0 as [|l2 t2 IH2]; [reflexivity|]. cbn [flat_map].
+    rewrite (filter_loc_owned _ _ _ _ _ _ _ _ _ _ Hu Hn).
+    destruct (String.eqb o l2) eqn:E2; [apply String.eqb_eq in E2; subst; exfalso; apply Hnin; left; reflexivity|].
+    cbn [app]. apply IH2. intros H. apply Hnin. right. exact H.
+  - cbn [app]. apply IH; [exact HN'|]. destruct Hin as [->|Hin]; [rewrite String.eqb_refl in E; discriminate | exact Hin].
+Qed.
